@@ -212,3 +212,48 @@ def run(ctx):
             okk = any(isinstance(c, ast.Call) and call_name(c) == "s_vdot" and src(c.func.value) == a and [src(z) for z in c.args] == [b]
                       for c in ast.walk(n))
     ctx.check("R06.3", f"{mv.key}::entry-wise v_self.s_vdot(v_other)", okk, None, mv)
+
+
+def r06_4(ctx):
+    """Field.var (partial) and Field.s_var (full) are two implementations of one formula on non-uniform volumes"""
+    from ..sibling import guarded_assignments
+    m = ctx.model
+    F = m.cls(FLD, "Field")
+    ctx.rule("R06.4", "sibling agreement of Field.var and Field.s_var on non-uniform volumes: both average |x - mean|^2 for complex and "
+                      "(x - mean)^2 for real fields (the squared deviation is selected by the same complex-dtype test)", floor=1)
+    forms = {}
+    for name in ("var", "s_var"):
+        fi = F.methods.get(name)
+        if fi is None:
+            ctx.error(f"Field.{name} missing")
+            return
+        ctx.saw_func(fi)
+        rets = [r for r in walk_no_nested(fi.node) if isinstance(r, ast.Return)]
+        # the averaged quantity: receiver of the final .mean(...)/.s_mean() call
+        sqn = None
+        for r in rets:
+            v = r.value
+            if isinstance(v, ast.Call) and call_name(v) in ("mean", "s_mean") and isinstance(v.func.value, ast.Name):
+                sqn = v.func.value.id
+        mean_names = {src(g.stmt.targets[0]) for g in guarded_assignments(fi.node) if isinstance(g.value, ast.Call) and call_name(g.value) in ("mean", "s_mean", "adjoint_times")}
+        fs = set()
+        for g in guarded_assignments(fi.node):
+            if g.target == sqn:
+                t = src(g.value)
+                for mn_ in sorted(mean_names, key=len, reverse=True):
+                    t = t.replace(mn_, "<mean>")
+                cplx = [("" if not (isinstance(a, ast.UnaryOp)) else "not ") + "complex" for a in g.guards if "iscomplextype" in src(a)]
+                fs.add((tuple(cplx), t))
+        forms[name] = fs
+    want = {(("complex",), "abs(self - <mean>) ** 2"), (("not complex",), "(self - <mean>) ** 2")}
+    same = forms["var"] == forms["s_var"]
+    ctx.check("R06.4", f"{F.key}::var and s_var use the same squared deviation per dtype", (same and forms["var"] == want) if forms["var"] and forms["s_var"] else None,
+              f"var {sorted(forms['var'])} vs s_var {sorted(forms['s_var'])}" + ("" if same else ": the partial and the full variance of the same complex field differ"), F)
+
+
+_run_c06 = run
+
+
+def run(ctx):  # noqa: F811
+    _run_c06(ctx)
+    r06_4(ctx)
